@@ -1498,7 +1498,7 @@ def _fixStringValue(s, p):
             while j < 4 and i + j < len(s):
                 c = s[i + j]
                 c = c.upper()
-                if not c.isdigit() and c not in 'ABCDEF':
+                if c not in '0123456789ABCDEF':
                     break
                 hexc <<= 4
                 if c.isdigit():
